@@ -144,16 +144,26 @@ impl<'a, D> Dfs<'a, D> {
     ///
     /// * `digraph`: The digraph.
     /// * `sources`: The source vertices.
+    ///
+    /// # Panics
+    ///
+    /// Panics if a source vertex isn't in the digraph.
     #[must_use]
     pub fn new<T>(digraph: &'a D, sources: T) -> Self
     where
         D: Order,
         T: Iterator<Item = usize>,
     {
+        let order = digraph.order();
+
         Self {
             digraph,
-            stack: sources.collect(),
-            visited: vec![false; digraph.order()],
+            stack: sources
+                .inspect(|&u| {
+                    assert!(u < order, "u = {u} isn't in the digraph");
+                })
+                .collect(),
+            visited: vec![false; order],
         }
     }
 }
